@@ -354,6 +354,40 @@ func zzC06_two_pending() {
 	symIdle()
 }
 
+// the first transmission fails at the socket (no buffer space, a secured session's write error): the call reports
+// the error - and that is the end of the request: no copy is sent by later housekeeping ticks, its slot is free
+func zzC06_write_fails() {
+	s := zzNewSession()
+	cc := zzNewConn(s, zzConnCfg{midSeed: 1000, ackTimeout: 1 << 20, maxRetrans: 2, nstart: 1})
+	now := int64(1 << 41)
+	s.now = &now
+	symSetNow(time.Unix(0, now))
+	s.failWrites = 1
+	req := pool.NewMessage(context.Background())
+	req.SetCode(codes.POST)
+	req.SetType(message.Confirmable)
+	req.SetToken(message.Token{0xA1})
+	_ = req.SetPath("/a")
+	var err error
+	if symChoose("one-way", 2) == 1 {
+		err = cc.WriteMessage(req)
+	} else {
+		_, err = cc.Do(req)
+	}
+	symCover("first-write-failed")
+	symAssert(err != nil, "a failed first transmission is reported to the caller")
+	for i := 0; i < 3; i++ {
+		now += 1 << 24
+		symSetNow(time.Unix(0, now))
+		cc.CheckExpirations(time.Unix(0, now))
+	}
+	symAssert(len(s.written) == 0, "no copy after the return of the call")
+	symAssert(cc.midHandlerContainer.Length() == 0 && cc.tokenHandlerContainer.Length() == 0, "nothing is retained for the request")
+	symAssert(cc.numOutstandingInteraction.TryAcquire(1<<63-1), "the failed request holds no outstanding-interaction slot")
+}
+
+func zzC13_write_fails() { zzC06_write_fails() }
+
 func zzC06_selftest() {
 	s := zzNewSession()
 	cc := zzNewConn(s, zzConnCfg{midSeed: 1000, ackTimeout: 1000, maxRetrans: 2, nstart: 1})
